@@ -225,5 +225,18 @@ PROPS["C16"] = dict(
     assumptions=["crypto/rand inside the library only affects ciphertext bits, not verdicts", "RFC 7638 canonical form as coded in refThumbprint"],
 )
 
+PROPS["C07"] = dict(
+    pkg="c07", level="exploration",
+    rule="15 decoder entry functions fed with (a) mutated valid encodings from the independent reference encoders / fixture keys, (b) random bytes up to 64 KiB, (c) native coverage-guided fuzzing in the thorough tier; "
+         "oracle: the call returns (no panic, no stall); all enum helpers over their whole integer range; CPU-time growth of adversarial input families at 8-64 KiB; per-check rules under coverage.checks",
+    quick=dict(timeout=1500), thorough=dict(shards=16, timeout=3000),
+    fuzz=[dict(name="FuzzRtmpChunks", seconds=40), dict(name="FuzzRtmpMessage", seconds=40), dict(name="FuzzRtmpPackets", seconds=40), dict(name="FuzzAmf0", seconds=40), dict(name="FuzzFlvDemux", seconds=40), dict(name="FuzzFlvTags", seconds=40), dict(name="FuzzAac", seconds=40), dict(name="FuzzAvc", seconds=40), dict(name="FuzzWsServer", seconds=40), dict(name="FuzzWsClient", seconds=40), dict(name="FuzzJws", seconds=40), dict(name="FuzzJwe", seconds=40), dict(name="FuzzJwk", seconds=40), dict(name="FuzzOcsp", seconds=40), dict(name="FuzzJsonplus", seconds=40)],
+    technique="fuzzing: grammar-based generation + structure-aware mutation (rapid), random bytes, native coverage-guided go test -fuzz per decoder; exhaustive enumeration of enum values; CPU-time ratio test for linearity",
+    level_text="Search, not proof: mutated valid encodings and random bytes per decoder, coverage-guided fuzzing (thorough tier, 40 s x 15 targets x 16 workers), complete enumeration of enum values, and a fixed set of adversarial size families for the time bound.",
+    level_note="A panic or a 60 s stall is the violation. Linear-time: violation iff t(64 KiB) >= 50 ms and t(64 KiB)/t(16 KiB) > 10 on thread CPU time (min of 5, GC off). Demuxer.ReadTag is only called with the size just read; "
+               "websocket reads stop at the first error (documented). The AMF0 nesting family is an open known finding and is reported as KNOWN-FINDING.",
+    assumptions=["inputs are bounded to 64 KiB", "the reference encoders only matter for reaching deep decoder states, not for the verdict"],
+)
+
 NOT_APPLICABLE = {}
 HOOK_COMMITS = ["ba4d95f68dd5a0290f21f6bb6c969f905e9412da", "a27187fa8bc3d23076469a07766dcee96b1efc22"]
